@@ -575,6 +575,11 @@ class Mitochondria:
         sequences = [v for v in values if isinstance(v, (str, bytes, list, tuple))]
         if sum(self._nested_length(v) for v in sequences) > MAX_SEQUENCE_LENGTH:
             raise ValueError("Arguments too large")
+        if func_name == 'round':
+            # int.__round__ builds 10 ** -ndigits in one uninterruptible call
+            ndigits = kwargs.get('ndigits', args[1] if len(args) > 1 else None)
+            if isinstance(ndigits, int) and ndigits < -MAX_INT_BITS:
+                raise ValueError("Result too large")
         if func_name == 'sum':
             # sum(list_of_lists, []) concatenates repeatedly (quadratic)
             items = args[0] if args and isinstance(args[0], (list, tuple)) else ()
